@@ -55,6 +55,11 @@ CHECKS = {
         "Exploration: every token string up to 3-4 tokens (sentences, non-sentences, junk) of every generated grammar is rendered with two independently generated layout patterns (whitespace; line and nested block comments under a LAYOUT rule) and parsed by LR and GLR: acceptance, LR result, the set of position-free GLR trees and the index of the offending token must agree; for ws grammars an equivalent LAYOUT rule (4 formulations) must give identical trees, node positions, layout_content and error positions.",
         "Trusted: the renderer never changes token boundaries (single-character terminals or forced separators). Messages/tokens_ahead are not compared between ws and LAYOUT parsers.",
         "DESIGN.md section 6/C14"),
+    "C16": (
+        "differential PBT across subprocesses started with different PYTHONHASHSEED values (and a repeated run with the same seed): tables, action order, .pgc bytes, conflict reports, LR results and forests must be identical",
+        "Exploration: generated batches of grammars (random small grammars, many terminals whose names differ in one character inside one lookahead set, ambiguous operator grammars, multi-file grammars whose imported files define terminals of the same name) are built in fresh interpreter processes under hash seeds 0,1,2,3 (12 seeds in the thorough tier): sha256 of the serialised table for LR/GLR x LALR/SLR, per-state action order, bytes of the written .pgc, conflict reports as (state, terminal, productions), LR results and the first 25 forest trees in index order (to_str) must be equal in every process.",
+        "Trusted: a finite set of hash seeds. Conflict reports are compared by meaning (state, terminal, productions), not by rendered text (which lists lookahead sets in set order).",
+        "DESIGN.md section 6/C16"),
     "C17": (
         "differential PBT: GLR/LR with consume_input=False vs union of reference derivations over all sentence prefixes (Earley prefix ends)",
         "Exploration: every token string up to 4-5 tokens (every sentence followed by every continuation, incl. junk) is parsed with consume_input=False; the set of trees expanded from the GLR forest must equal the union over all sentence prefixes of the reference derivations (each once) and SyntaxError is allowed only when no prefix is a sentence; the LR result must be a derivation of a prefix that is a sentence.",
